@@ -443,6 +443,37 @@ def r105(ctx, prog, B):
         ctx.check(bool(lens) and lens <= {'std::string::String::len', 'core::str::<impl str>::len'} and slicers == {'get'}, 'R10.5', 'str::substring:unit', 'unit', 'str::substring measures with String::len (the unit of `len`) and slices with the non-panicking str::get (len calls %s, slicing %s)' % (sorted(lens), sorted(slicers)))
         oob = [p for p in ps if is_adt(p[0], 'result::Result', 'Err') and is_adt(p[0][4][0], 'error::EvalexprError', 'OutOfBoundsAccess')]
         ctx.check(len(oob) >= 2, 'R10.5', 'str::substring:bounds', 'bounds', 'out-of-range or non-boundary indices are OutOfBoundsAccess (%d error paths)' % len(oob))
+        # the slice is the result of str::get, and nothing else: every Ok path returns the payload of `get(..) = Some(..)` (the fork on
+        # its discriminant is on the path) and the None side - an index inside a multi-byte character - is OutOfBoundsAccess, never a
+        # value made up in its place (`unwrap_or_default()`, `unwrap_or("")`)
+        from absint import subst, has_subterm
+        for label, args in (('2', [B.V('String', 's'), B.V('Int', 'from')]), ('3', [B.V('String', 's'), B.V('Int', 'from'), B.V('Int', 'to')])):
+            ps3 = B.call('str::substring', B.tuple(args), depth=3)
+            if ps3 is None:
+                ctx.unrecognised('R10.5', 'str::substring/%s' % label, 'budget', 'too complex')
+                continue
+            bad = []
+            n_some = n_none = 0
+            for ret, eff in ps3:
+                gets = [('app', n_, a_) for n_, a_ in apps(ret) if n_.endswith('str>::get')]
+                gets += [e[2][0][2][0] for e in eff if e[0] == '<branch>' and e[2][0][0] == 'app' and e[2][0][1] == 'discriminant' and e[2][0][2][0][0] == 'app' and e[2][0][2][0][1].endswith('str>::get')]
+                disc = {fmt(e[2][1]) for e in eff if e[0] == '<branch>' and e[2][0][0] == 'app' and e[2][0][1] == 'discriminant' and e[2][0][2][0] in gets}
+                if is_adt(ret, 'result::Result', 'Ok'):
+                    g_ok = False
+                    for g in gets:
+                        payload = ('proj', g, ('as Some', '0'))
+                        if has_subterm(ret, payload) and not has_subterm(subst(ret, payload, SYM('slice')), g) and disc == {'1'}:
+                            g_ok = True
+                    if g_ok:
+                        n_some += 1
+                    else:
+                        bad.append(fmt(ret)[:160])
+                elif disc == {'0'}:
+                    if is_adt(ret, 'result::Result', 'Err') and is_adt(ret[4][0], 'error::EvalexprError', 'OutOfBoundsAccess'):
+                        n_none += 1
+                    else:
+                        bad.append('get = None -> ' + fmt(ret)[:120])
+            ctx.check(not bad and n_some >= 1 and n_none >= 1, 'R10.5', 'str::substring/%s:slice' % label, 'made-up-slice', 'every Ok result is the slice str::get returned and its None side (an index that is not a character boundary) is OutOfBoundsAccess (Some paths %d, None paths %d, other: %s)' % (n_some, n_none, bad[:2]))
 
 
 def r106(ctx, prog, B):
